@@ -391,7 +391,8 @@ class SigmaCollection:
 def deep_dict_update(dest: dict[Any, Any], src: dict[Any, Any]) -> dict[Any, Any]:
     for k, v in src.items():
         if isinstance(v, dict):
-            dest[k] = deep_dict_update(dest.get(k, {}), v)
+            d = dest.get(k)
+            dest[k] = deep_dict_update(d if isinstance(d, dict) else {}, v)
         else:
             dest[k] = v
     return dest
